@@ -300,7 +300,7 @@ func scLaggingSnapshot(d *Driver) {
 		d.snapCompact(n)
 	}
 	// snapshots are slow to travel: they stay in the network while everything else flows
-	d.holdTypes[pb.MsgSnap] = pct(d.r, 60)
+	d.holdTypes[pb.MsgSnap] = pct(d.r, 75)
 	d.heal()
 	p := calm
 	p.Dup, p.Drop, p.RepSnap, p.Propose, p.Tick = 6, 2, 6, 4, 10
@@ -310,6 +310,22 @@ func scLaggingSnapshot(d *Driver) {
 			d.propose(n, 1+d.r.Intn(3), false)
 			d.settle(10 + d.r.Intn(20))
 			d.snapCompact(n)
+		}
+		if n := d.leader(); n != nil && n.ID != f && (d.holdTypes[pb.MsgSnap] || pct(d.r, 50)) {
+			// the application reports the (still travelling) snapshot as sent or failed: the leader
+			// sends a newer one while the first is under way
+			d.c.Do(Step{Act: "ReportSnapshot", Node: n.ID, To: f, Ok: pct(d.r, 50)})
+			if d.holdTypes[pb.MsgSnap] {
+				if _, hi := d.c.snapBounds(n); hi > 1 {
+					if d.c.Do(Step{Act: "Snapshot", Node: n.ID, K: hi}) {
+						d.c.Do(Step{Act: "Compact", Node: n.ID, K: hi})
+					}
+				}
+				for t := 0; t < 2; t++ {
+					d.c.Do(Step{Act: "Tick", Node: n.ID})
+					d.with(calm, 8)
+				}
+			}
 		}
 		if pct(d.r, 40) {
 			d.frozenReady[f] = !d.frozenReady[f]
@@ -330,6 +346,7 @@ func scLaggingSnapshot(d *Driver) {
 		}
 		d.frozenReady[f] = pct(d.r, 60)
 		d.frozenAppend[f] = d.frozenReady[f]
+		dbg("lagging-snapshot: snapshots released", len(snaps), "frozen", d.frozenReady[f])
 		for k := len(snaps) - 1; k >= 0; k-- {
 			d.c.Do(Step{Act: "Deliver", Mid: snaps[k].Mid, Keep: pct(d.r, 20)})
 			if pct(d.r, 30) {
